@@ -277,6 +277,9 @@ QUICK = [
     # the end of the efficiency range: every photon lost, only dark counts are ever detected
     ("c16", "plain3", (F(0), F(1, 4), True), "none", 1),
     ("c17", "herald0_inout", (F(0), F(1, 8), False), "none", 0),
+    # min_detection equal to the number of injected photons, lossy circuit, dark counts: a lost photon can be "repaired" by a dark count
+    ("c18", "herald0_inout", (F(1), F(1, 4), True), "none", 2),
+    ("c19", "herald1_lossy", (F(1, 2), F(1, 4), True), "none", 2),
 ]
 
 
